@@ -10,14 +10,19 @@ E5 — request bookkeeping invariants:
 namespace Resume
 variable {α : Type}
 
+/-- a response to `r` for stream `sid` is between its routing and its delivery section -/
+def RespPending (c : Conn α) (r sid : Nat) : Prop := ∃ pw ∈ c.pendW, pw.sid = sid ∧ ∃ p, pw.msg = .resp r p
+
 structure InvReg (c : Conn α) : Prop where
-  live : c.isDone = false → ∀ s ∈ c.streams, ∀ r ∈ s.requests, c.reqStreams r = some s.id
+  live : c.isDone = false → ∀ s ∈ c.streams, ∀ r ∈ s.requests, c.reqStreams r = some s.id ∨ RespPending c r s.id
   reg : ∀ (r sid : Nat), c.reqStreams r = some sid → ∃ s ∈ c.streams, s.id = sid ∧ r ∈ s.requests
+  pend : ∀ pw ∈ c.pendW, ∀ r p, pw.msg = .resp r p → c.reqStreams r ≠ some pw.sid
 
 theorem invReg_init (cfg : Cfg) : InvReg (init cfg : Conn α) := by
-  refine ⟨?_, ?_⟩
+  refine ⟨?_, ?_, ?_⟩
   · intro _ s hs r hr; simp [init] at hs; subst hs; cases hr
   · intro r sid h; simp [init] at h
+  · intro pw h; simp [init] at h
 
 /-- every old stream is still there with the same outstanding requests -/
 def StrKeepF (l l' : List (Stream α)) : Prop := ∀ s ∈ l, ∃ s' ∈ l', s'.id = s.id ∧ s'.requests = s.requests
@@ -42,22 +47,28 @@ theorem strKeepF_set {l : List (Stream α)} (hn : (l.map (·.id)).Nodup) {s s' :
     exact ⟨s', mem_setStream_self hx hid, h1, h4⟩
   · exact ⟨x, mem_setStream_other hx hid, rfl, rfl⟩
 
-/-- frame lemma: `requestStreams`, `isDone` untouched, streams kept in both directions -/
+/-- frame lemma: `requestStreams`, `isDone`, pending writes untouched, streams kept in both directions -/
 theorem invReg_frame {c c' : Conn α} (h : InvReg c) (hd : c'.isDone = c.isDone ∨ c'.isDone = true)
-    (hreq : c'.reqStreams = c.reqStreams) (hs : StrKeep c.streams c'.streams) (hf : StrKeepF c.streams c'.streams) : InvReg c' := by
-  refine ⟨?_, ?_⟩
+    (hreq : c'.reqStreams = c.reqStreams) (hs : StrKeep c.streams c'.streams) (hf : StrKeepF c.streams c'.streams)
+    (hpw : c'.pendW = c.pendW := by rfl) : InvReg c' := by
+  refine ⟨?_, ?_, ?_⟩
   · intro hnd s' hs' r hr
     obtain ⟨s, hsl, h1, _, _, h4, _⟩ := hs s' hs'
     have : c.isDone = false := by
       rcases hd with hd | hd
       · rw [← hd]; exact hnd
       · rw [hd] at hnd; cases hnd
-    rw [hreq, h1]; exact h.live this s hsl r (by rw [← h4]; exact hr)
+    rw [hreq, h1]
+    rcases h.live this s hsl r (by rw [← h4]; exact hr) with hl | ⟨pw, hp, hps⟩
+    · exact Or.inl hl
+    · exact Or.inr ⟨pw, by rw [hpw]; exact hp, hps⟩
   · intro r sid hr
     rw [hreq] at hr
     obtain ⟨s, hsl, hid, hmem⟩ := h.reg r sid hr
     obtain ⟨s', hs', h1, h4⟩ := hf s hsl
     exact ⟨s', hs', by rw [h1]; exact hid, by rw [h4]; exact hmem⟩
+  · intro pw hp r p hm
+    rw [hreq]; exact h.pend pw (by rw [← hpw]; exact hp) r p hm
 
 theorem invReg_cut {c : Conn α} (h : InvReg c) (ex : Nat) : InvReg (cut c ex) :=
   invReg_frame (c' := cut c ex) h (Or.inl rfl) rfl (strKeep_release _ _) (strKeepF_release _ _)
@@ -82,21 +93,27 @@ theorem invReg_sclose {c : Conn α} (hw : Inv c) (h : InvReg c) (req : Nat) (ret
 
 /-! ### POST -/
 
+theorem postPrimed_pendW (c : Conn α) (calls : List Nat) (listen : Bool) (ver : Ver) (budget : Option Nat) :
+    (postPrimed c calls listen ver budget).pendW = c.pendW := by
+  unfold postPrimed; split <;> rfl
+
 theorem invReg_postPrimed {c : Conn α} (hw : Inv c) (h : InvReg c) (calls : List Nat) (listen : Bool) (ver : Ver)
     (budget : Option Nat) (hnd : ∀ r ∈ calls, c.reqStreams r = none) : InvReg (postPrimed c calls listen ver budget) := by
   obtain ⟨fs, _, _, _, fd, frq, _⟩ := postPrimed_frame c calls listen ver budget
-  refine ⟨?_, ?_⟩
+  have fp := postPrimed_pendW c calls listen ver budget
+  refine ⟨?_, ?_, ?_⟩
   · intro hdn s' hs' r hr
     rw [fd] at hdn
     rw [fs] at hs'
     rw [frq]
     simp only [List.mem_append, List.mem_singleton] at hs'
     rcases hs' with hold | rfl
-    · have := h.live hdn s' hold r hr
-      have hnc : r ∉ calls := fun hc => by rw [hnd r hc] at this; cases this
-      simp [hnc, this]
+    · rcases h.live hdn s' hold r hr with hl | ⟨pw, hp, hps⟩
+      · have hnc : r ∉ calls := fun hc => by rw [hnd r hc] at hl; cases hl
+        exact Or.inl (by simp [hnc, hl])
+      · exact Or.inr ⟨pw, by rw [fp]; exact hp, hps⟩
     · simp only [newStream] at hr ⊢
-      simp [hr]
+      exact Or.inl (by simp [hr])
   · intro r sid hr
     rw [frq] at hr
     rw [fs]
@@ -107,6 +124,16 @@ theorem invReg_postPrimed {c : Conn α} (hw : Inv c) (h : InvReg c) (calls : Lis
       exact ⟨newStream c calls listen ver, by simp, rfl, by simpa [newStream] using hc⟩
     · obtain ⟨s, hsl, hid, hm⟩ := h.reg r sid hr
       exact ⟨s, by simp [hsl], hid, hm⟩
+  · intro pw hp r p hm
+    rw [fp] at hp
+    rw [frq]
+    simp only
+    split
+    · intro he
+      have := hw.pend_lt pw hp
+      have he' : c.nextSid = pw.sid := Option.some.inj he
+      omega
+    · exact h.pend pw hp r p hm
 
 theorem invReg_post {c : Conn α} (hw : Inv c) (h : InvReg c) (calls : List Nat) (listen : Bool) (ver : Ver)
     (budget : Option Nat) : InvReg (post c calls listen ver budget) := by
@@ -142,74 +169,114 @@ theorem route_resp {c : Conn α} {id : Nat} {p : α} {ctx : Option Nat} :
 theorem eraseResp_req_resp (c : Conn α) (id : Nat) (p : α) (r : Nat) :
     (eraseResp c (.resp id p)).reqStreams r = if r = id then none else c.reqStreams r := rfl
 
-theorem invReg_eraseResp_of {c : Conn α} (hw : Inv c) (h : InvReg c) (msg : Msg α) (ctx : Option Nat)
-    (hcase : route c msg ctx = none ∨ c.isDone = true) : InvReg (eraseResp c msg) := by
-  refine ⟨?_, ?_⟩
+theorem eraseResp_req_le (c : Conn α) (msg : Msg α) (r sid : Nat) (h : (eraseResp c msg).reqStreams r = some sid) :
+    c.reqStreams r = some sid := by
+  cases msg with
+  | resp id p =>
+    rw [eraseResp_req_resp] at h
+    split at h
+    · cases h
+    · exact h
+  | notif p => exact h
+  | call p => exact h
+
+/-- routing section: the entry of the answered request goes; if the write is kept pending it takes its place -/
+theorem invReg_eraseResp_gen {c : Conn α} (hw : Inv c) (h : InvReg c) (msg : Msg α) (ctx : Option Nat) (l : List (PendW α))
+    (hsub : ∀ pw ∈ c.pendW, pw ∈ l)
+    (hnew : ∀ pw ∈ l, pw ∈ c.pendW ∨ ∃ s ctxNew, route c msg ctx = some s ∧ pw = ⟨msg, ctx, ctxNew, s.id⟩)
+    (hcase : route c msg ctx = none ∨ c.isDone = true ∨ ∃ s ctxNew, route c msg ctx = some s ∧ (⟨msg, ctx, ctxNew, s.id⟩ : PendW α) ∈ l) :
+    InvReg ({ eraseResp c msg with pendW := l } : Conn α) := by
+  refine ⟨?_, ?_, ?_⟩
   · intro hdn s hs r hr
     simp only [eraseResp_isDone] at hdn
     simp only [eraseResp_streams] at hs
-    have hl := h.live hdn s hs r hr
-    cases msg with
-    | resp id p =>
-      rw [eraseResp_req_resp]
-      by_cases hri : r = id
-      · exfalso
-        subst hri
-        rcases hcase with hrt | hd
-        · rw [route_resp, hl] at hrt
-          simp only at hrt
-          rw [findStream_of_mem hw.nodup hs] at hrt; cases hrt
-        · rw [hd] at hdn; cases hdn
-      · simp [hri, hl]
-    | notif p => exact hl
-    | call p => exact hl
-  · intro r sid hr
-    have : c.reqStreams r = some sid := by
-      cases msg with
+    rcases h.live hdn s hs r hr with hl | ⟨pw, hp, hps⟩
+    · cases msg with
       | resp id p =>
-        rw [eraseResp_req_resp] at hr
-        split at hr
-        · cases hr
-        · exact hr
-      | notif p => exact hr
-      | call p => exact hr
-    simpa using h.reg r sid this
+        simp only [eraseResp_req_resp]
+        by_cases hri : r = id
+        · subst hri
+          have hrt : route c (.resp r p) ctx = some s := by
+            rw [route_resp, hl]; exact findStream_of_mem hw.nodup hs
+          rcases hcase with hn | hd | ⟨s', ctxNew, hs', hm⟩
+          · rw [hrt] at hn; cases hn
+          · rw [hd] at hdn; cases hdn
+          · rw [hrt] at hs'; cases hs'
+            exact Or.inr ⟨_, hm, rfl, p, rfl⟩
+        · exact Or.inl (by simp [hri, hl])
+      | notif p => exact Or.inl hl
+      | call p => exact Or.inl hl
+    · exact Or.inr ⟨pw, hsub pw hp, hps⟩
+  · intro r sid hr
+    simpa using h.reg r sid (eraseResp_req_le c msg r sid hr)
+  · intro pw hp r p hm he
+    have he' : (eraseResp c msg).reqStreams r = some pw.sid := he
+    rcases hnew pw hp with hold | ⟨s, ctxNew, hs, rfl⟩
+    · exact h.pend pw hold r p hm (eraseResp_req_le c msg r _ he')
+    · simp only at hm he'
+      subst hm
+      rw [eraseResp_req_resp] at he'
+      simp at he'
+
+theorem invReg_wroute {c : Conn α} (hw : Inv c) (h : InvReg c) (msg : Msg α) (ctx : Option Nat) (ctxNew : Bool) :
+    InvReg (wrouteR c msg ctx ctxNew).1 := by
+  have keep : ∀ (hc : route c msg ctx = none ∨ c.isDone = true), InvReg (eraseResp c msg) := by
+    intro hc
+    have := invReg_eraseResp_gen hw h msg ctx c.pendW (fun _ hp => hp) (fun _ hp => Or.inl hp)
+      (by rcases hc with h1 | h1; exact Or.inl h1; exact Or.inr (Or.inl h1))
+    have he : ({ eraseResp c msg with pendW := c.pendW } : Conn α) = eraseResp c msg := by
+      unfold eraseResp; split <;> rfl
+    rw [he] at this; exact this
+  unfold wrouteR
+  split
+  · exact h
+  · split
+    · rename_i hrt; exact keep (Or.inl hrt)
+    · rename_i s hrt
+      split
+      · rename_i hd; exact keep (Or.inr hd)
+      · exact invReg_eraseResp_gen hw h msg ctx _ (fun pw hp => List.mem_append_left _ hp)
+          (fun pw hp => by
+            rcases List.mem_append.mp hp with h1 | h1
+            · exact Or.inl h1
+            · simp at h1; exact Or.inr ⟨s, ctxNew, hrt, h1⟩)
+          (Or.inr (Or.inr ⟨s, ctxNew, hrt, by simp⟩))
 
 theorem wReqs_ne {s : Stream α} {id : Nat} {p : α} {r : Nat} (h : r ∈ wReqs s (.resp id p)) : r ≠ id := by
   simp only [wReqs] at h; exact (mem_eraseAll h).2
 
-theorem invReg_writeTo {c : Conn α} (hw : Inv c) (h : InvReg c) (msg : Msg α) (ctx : Option Nat) (ctxNew : Bool)
-    {s : Stream α} (hrt : route c msg ctx = some s) (hdn : c.isDone = false) :
-    InvReg (writeTo (eraseResp c msg) s msg ctx ctxNew).1 := by
-  have hmem := route_mem hrt
-  have hds := deliver_stream (eraseResp c msg).exs s ⟨msg, ctx⟩ (if wUse (eraseResp c msg) ctxNew then some (s.id, s.next) else none)
-    (wReqs s msg) (wDone s msg)
-  -- a request outstanding on another stream is not the one being answered
-  have hother : ∀ x ∈ c.streams, x.id ≠ s.id → ∀ r ∈ x.requests, (eraseResp c msg).reqStreams r = some x.id := by
-    intro x hx hne r hr
-    have hl := h.live hdn x hx r hr
-    cases msg with
-    | resp id p =>
-      rw [eraseResp_req_resp]
-      by_cases hri : r = id
-      · exfalso; subst hri
-        rw [route_resp, hl] at hrt
-        simp only at hrt
-        rw [findStream_of_mem hw.nodup hx] at hrt
-        cases hrt; exact hne rfl
-      · simp [hri, hl]
-    | notif p => exact hl
-    | call p => exact hl
-  have hself : ∀ r ∈ wReqs s msg, (eraseResp c msg).reqStreams r = some s.id := by
-    intro r hr
-    have hl := h.live hdn s hmem r (mem_wReqs hr)
-    cases msg with
-    | resp id p => rw [eraseResp_req_resp]; simp [wReqs_ne hr, hl]
-    | notif p => exact hl
-    | call p => exact hl
-  refine ⟨?_, ?_⟩
-  · intro _ x hx r hr
-    simp only [writeTo, eraseResp_streams] at hx ⊢
+theorem mem_eraseIdx_of_ne {β : Type} {l : List β} {i : Nat} {x y : β} (hx : x ∈ l) (hy : l[i]? = some y) (hne : x ≠ y) :
+    x ∈ l.eraseIdx i := by
+  rw [List.mem_eraseIdx_iff_getElem?]
+  obtain ⟨j, hj⟩ := List.getElem?_of_mem hx
+  refine ⟨j, ?_, hj⟩
+  intro hji; subst hji; rw [hj] at hy; cases hy; exact hne rfl
+
+/-- delivery section of a pending write whose stream object is still registered -/
+theorem invReg_deliver {c : Conn α} (hw : Inv c) (h : InvReg c) (i : Nat) (pw : PendW α) (hpw : c.pendW[i]? = some pw)
+    (s : Stream α) (hs : findStream pw.sid c.streams = some s) :
+    InvReg (writeTo ({ c with pendW := c.pendW.eraseIdx i } : Conn α) s pw.msg pw.ctx pw.ctxNew).1 := by
+  obtain ⟨hmem, hsid⟩ := findStream_some hs
+  have hds := deliver_stream c.exs s ⟨pw.msg, pw.ctx⟩
+    (if wUse ({ c with pendW := c.pendW.eraseIdx i } : Conn α) pw.ctxNew then some (s.id, s.next) else none) (wReqs s pw.msg) (wDone s pw.msg)
+  -- pending responses for other (stream, request) pairs survive
+  have hsurv : ∀ r sid, RespPending c r sid → (sid ≠ s.id ∨ ∀ p, pw.msg ≠ .resp r p) →
+      RespPending ({ c with pendW := c.pendW.eraseIdx i } : Conn α) r sid := by
+    rintro r sid ⟨pw', hp', hs', p', hm'⟩ hdiff
+    refine ⟨pw', mem_eraseIdx_of_ne hp' hpw ?_, hs', p', hm'⟩
+    intro he; subst he
+    rcases hdiff with hd | hd
+    · exact hd (hs'.symm.trans hsid.symm)
+    · exact hd p' hm'
+  refine ⟨?_, ?_, ?_⟩
+  · intro hdn x hx r hr
+    simp only [writeTo] at hx hdn ⊢
+    have hother : ∀ y ∈ c.streams, y.id ≠ s.id → ∀ r ∈ y.requests,
+        c.reqStreams r = some y.id ∨ RespPending ({ c with pendW := c.pendW.eraseIdx i } : Conn α) r y.id := by
+      intro y hy hne r hr
+      rcases h.live hdn y hy r hr with hl | hp
+      · exact Or.inl hl
+      · exact Or.inr (hsurv r y.id hp (Or.inl hne))
     split at hx
     · rw [mem_delStream] at hx
       exact hother x hx.1 hx.2 r hr
@@ -217,37 +284,36 @@ theorem invReg_writeTo {c : Conn α} (hw : Inv c) (h : InvReg c) (msg : Msg α) 
       · simp only [wDeliver] at hr ⊢
         rw [hds.2.2.2.1] at hr
         rw [hds.1]
-        exact hself r hr
+        rcases h.live hdn s hmem r (mem_wReqs hr) with hl | hp
+        · exact Or.inl hl
+        · refine Or.inr (hsurv r s.id hp (Or.inr ?_))
+          intro p hm
+          rw [hm] at hr
+          exact wReqs_ne hr rfl
       · simp only [wDeliver] at hne
         rw [hds.1] at hne
         exact hother x hxl hne r hr
   · intro r sid hr
-    simp only [writeTo] at hr
-    have hc : c.reqStreams r = some sid ∧ (∀ id p, msg = .resp id p → r ≠ id) := by
-      cases msg with
-      | resp id p =>
-        rw [eraseResp_req_resp] at hr
-        split at hr
-        · cases hr
-        · rename_i hne; exact ⟨hr, fun id' p' he => by cases he; exact hne⟩
-      | notif p => exact ⟨hr, fun _ _ he => by cases he⟩
-      | call p => exact ⟨hr, fun _ _ he => by cases he⟩
-    obtain ⟨x, hxl, hid, hm⟩ := h.reg r sid hc.1
-    simp only [writeTo, eraseResp_streams]
+    simp only [writeTo] at hr ⊢
+    obtain ⟨x, hxl, hid, hm⟩ := h.reg r sid hr
     by_cases hxs : x.id = s.id
     · have hxeq : x = s := by
         have e1 := findStream_of_mem hw.nodup hxl
         have e2 := findStream_of_mem hw.nodup hmem
         rw [hxs] at e1; rw [e1] at e2; cases e2; rfl
       subst hxeq
-      have hrw : r ∈ wReqs x msg := by
-        cases msg with
-        | resp id p => simp only [wReqs]; exact mem_eraseAll_of hm (hc.2 id p rfl)
+      have hrw : r ∈ wReqs x pw.msg := by
+        cases hmsg : pw.msg with
+        | resp id p =>
+          simp only [wReqs]
+          refine mem_eraseAll_of hm ?_
+          intro he; subst he
+          exact h.pend pw (List.mem_of_getElem? hpw) r p hmsg (by rw [hr, ← hid, hsid])
         | notif p => exact hm
         | call p => exact hm
-      have hnd : wDone x msg = false := by
+      have hnd : wDone x pw.msg = false := by
         simp only [wDone]
-        cases hw' : wReqs x msg with
+        cases hw' : wReqs x pw.msg with
         | nil => rw [hw'] at hrw; cases hrw
         | cons a t => simp
       simp only [hnd]
@@ -258,21 +324,63 @@ theorem invReg_writeTo {c : Conn α} (hw : Inv c) (h : InvReg c) (msg : Msg α) 
       split
       · rw [mem_delStream]; exact ⟨hxl, hxs⟩
       · exact mem_setStream_other hxl (by simp only [wDeliver]; rw [hds.1]; exact hxs)
+  · intro pw' hp' r p hm
+    simp only [writeTo] at hp' ⊢
+    exact h.pend pw' (List.mem_of_mem_eraseIdx hp') r p hm
+
+theorem invReg_orphan {c : Conn α} (hw : Inv c) (h : InvReg c) (i : Nat) (pw : PendW α) (hpw : c.pendW[i]? = some pw)
+    (hs : findStream pw.sid c.streams = none) :
+    InvReg (orphanWrite ({ c with pendW := c.pendW.eraseIdx i } : Conn α) pw).1 := by
+  refine ⟨?_, h.reg, ?_⟩
+  · intro hdn x hx r hr
+    rcases h.live hdn x hx r hr with hl | ⟨pw', hp', hs', hm'⟩
+    · exact Or.inl hl
+    · refine Or.inr ⟨pw', mem_eraseIdx_of_ne hp' hpw ?_, hs', hm'⟩
+      intro he; subst he
+      have := findStream_of_mem hw.nodup hx
+      rw [← hs', hs] at this; cases this
+  · intro pw' hp' r p hm
+    exact h.pend pw' (List.mem_of_mem_eraseIdx hp') r p hm
+
+theorem invReg_wdeliver {c : Conn α} (hw : Inv c) (h : InvReg c) (i : Nat) : InvReg (wdeliverR c i).1 := by
+  unfold wdeliverR
+  split
+  · exact h
+  · rename_i pw hpw
+    split
+    · rename_i s hs; exact invReg_deliver hw h i pw hpw s hs
+    · rename_i hs; exact invReg_orphan hw h i pw hpw hs
+
+/-- the atomic WRITE is WROUTE followed at once by the WDELIVER of the write it left pending -/
+theorem write_is_route_then_deliver {c : Conn α} (hw : Inv c) (msg : Msg α) (ctx : Option Nat) (ctxNew : Bool) :
+    writeR c msg ctx ctxNew =
+      if (wrouteR c msg ctx ctxNew).2 = .na then wdeliverR (wrouteR c msg ctx ctxNew).1 c.pendW.length
+      else wrouteR c msg ctx ctxNew := by
+  unfold writeR wrouteR
+  split
+  · simp
+  · split
+    · simp
+    · rename_i s hrt
+      split
+      · simp
+      · simp only [if_true]
+        have hmem := route_mem hrt
+        have hget : (c.pendW ++ [(⟨msg, ctx, ctxNew, s.id⟩ : PendW α)])[c.pendW.length]? = some ⟨msg, ctx, ctxNew, s.id⟩ := by simp
+        have hfs : findStream s.id (eraseResp c msg).streams = some s := by simp; exact findStream_of_mem hw.nodup hmem
+        have her : (c.pendW ++ [(⟨msg, ctx, ctxNew, s.id⟩ : PendW α)]).eraseIdx c.pendW.length = c.pendW := by
+          rw [List.eraseIdx_append_of_length_le (Nat.le_refl _)]; simp
+        simp only [wdeliverR, hget, hfs, her]
+        have he : ({ eraseResp c msg with pendW := c.pendW } : Conn α) = eraseResp c msg := by
+          unfold eraseResp; split <;> rfl
+        simp only [eraseResp_pendW, he]
 
 theorem invReg_write {c : Conn α} (hw : Inv c) (h : InvReg c) (msg : Msg α) (ctx : Option Nat) (ctxNew : Bool) :
     InvReg (writeR c msg ctx ctxNew).1 := by
-  unfold writeR
+  rw [write_is_route_then_deliver hw]
   split
-  · exact h
-  · split
-    · rename_i hrt
-      exact invReg_eraseResp_of hw h msg ctx (Or.inl hrt)
-    · rename_i s hrt
-      split
-      · rename_i hd
-        exact invReg_eraseResp_of hw h msg ctx (Or.inr hd)
-      · rename_i hd
-        exact invReg_writeTo hw h msg ctx ctxNew hrt (by simpa using hd)
+  · exact invReg_wdeliver (inv_wroute hw _ _ _) (invReg_wroute hw h _ _ _) _
+  · exact invReg_wroute hw h _ _ _
 
 /-! ### GET -/
 
@@ -280,10 +388,12 @@ theorem invReg_getGo {c : Conn α} (hw : Inv c) (h : InvReg c) (sid frm : Nat) (
     (items : List (Item α)) : InvReg (getGo c sid frm ver budget items) := by
   obtain ⟨gs, _, _, grq, _, _, gd, _⟩ := getOpen_frame c sid frm budget
   obtain ⟨fs, _, _, frq, _, _, fd, _⟩ := replayLoop_frame (getOpen c sid frm budget) c.exs.length sid frm items
+  have gp : (getOpen c sid frm budget).pendW = c.pendW := by unfold getOpen; split <;> rfl
+  have fp := replayLoop_pendW (getOpen c sid frm budget) c.exs.length sid frm items
   have hfin : InvReg (finish (replayLoop (getOpen c sid frm budget) c.exs.length sid frm items).1 c.exs.length) :=
     invReg_frame (c' := finish (replayLoop (getOpen c sid frm budget) c.exs.length sid frm items).1 c.exs.length) h
       (Or.inl (by simp [finish, fd, gd])) (by simp [finish, frq, grq]) (by simp only [finish]; rw [fs, gs]; exact StrKeep.refl _)
-      (by simp only [finish]; rw [fs, gs]; exact strKeepF_refl _)
+      (by simp only [finish]; rw [fs, gs]; exact strKeepF_refl _) (by simp [finish, fp, gp])
   unfold getGo
   split
   · split
@@ -297,7 +407,7 @@ theorem invReg_getGo {c : Conn α} (hw : Inv c) (h : InvReg c) (sid frm : Nat) (
               (replayLoop (getOpen c sid frm budget) c.exs.length sid frm items).1.streams } : Conn α) :=
           invReg_frame h (Or.inl (by simp [fd, gd])) (by simp [frq, grq])
             (by simp only; rw [fs, gs]; exact strKeep_set (s := s) hmem rfl rfl rfl rfl rfl)
-            (by simp only; rw [fs, gs]; exact strKeepF_set hw.nodup (s := s) hmem rfl rfl)
+            (by simp only; rw [fs, gs]; exact strKeepF_set hw.nodup (s := s) hmem rfl rfl) (by simp [fp, gp])
         unfold attach
         split
         · exact invReg_cut hA _
@@ -329,6 +439,9 @@ theorem invReg_step {c : Conn α} (hw : Inv c) (h : InvReg c) (l : Label α) : I
   | get hdr ver budget => exact invReg_get hw h _ _ _
   | sclose req retry => exact invReg_sclose hw h _ _
   | «end» => exact invReg_frame (c' := { c with isDone := true }) h (Or.inr rfl) rfl (StrKeep.refl _) (strKeepF_refl _)
+  | evict sid n => exact invReg_frame (c' := evict c sid n) h (Or.inl rfl) rfl (StrKeep.refl _) (strKeepF_refl _)
+  | wroute msg ctx ctxNew => exact invReg_wroute hw h _ _ _
+  | wdeliver i => exact invReg_wdeliver hw h i
 
 theorem invReg_run (cfg : Cfg) (ls : List (Label α)) : InvReg (run (init cfg) ls) := by
   suffices ∀ c : Conn α, Inv c → InvReg c → InvReg (run c ls) from this _ (inv_init cfg) (invReg_init cfg)
@@ -426,13 +539,13 @@ theorem answered_post {c : Conn α} (h10 : Inv10 c) (h : Answered c) (calls : Li
 
 theorem answered_writeTo {c : Conn α} (hw : Inv c) (h : Answered c) (msg : Msg α) (ctx : Option Nat)
     {s : Stream α} (hmem : s ∈ c.streams) (hst : c.cfg.hasStore = true) :
-    Answered (writeTo (eraseResp c msg) s msg ctx false).1 := by
-  have huse : wUse (eraseResp c msg) false = true := by simp [wUse, hst]
-  have hds := deliver_stream (eraseResp c msg).exs s ⟨msg, ctx⟩ (if wUse (eraseResp c msg) false then some (s.id, s.next) else none)
+    Answered (writeTo c s msg ctx false).1 := by
+  have huse : wUse c false = true := by simp [wUse, hst]
+  have hds := deliver_stream c.exs s ⟨msg, ctx⟩ (if wUse c false then some (s.id, s.next) else none)
     (wReqs s msg) (wDone s msg)
   intro sid calls li hhist r hr
-  simp only [writeTo, eraseResp_hist] at hhist
-  simp only [writeTo, huse, if_true, eraseResp_streams, eraseResp_store]
+  simp only [writeTo] at hhist
+  simp only [writeTo, huse, if_true]
   rcases h sid calls li hhist r hr with ⟨x, hxl, hid, hm⟩ | ⟨log, p, cx, hlog, hmem'⟩
   · by_cases hxs : x.id = s.id
     · have hxeq : x = s := by
@@ -480,7 +593,43 @@ theorem answered_write {c : Conn α} (hw : Inv c) (h : Answered c) (msg : Msg α
     · rename_i s hrt
       split
       · exact herase
-      · exact answered_writeTo hw h msg ctx (route_mem hrt) hst
+      · exact answered_writeTo (inv_eraseResp hw msg) herase msg ctx (by simp; exact route_mem hrt) (by simp; exact hst)
+
+theorem answered_pendW {c : Conn α} (h : Answered c) (l : List (PendW α)) : Answered ({ c with pendW := l } : Conn α) := h
+
+theorem answered_wroute {c : Conn α} (h : Answered c) (msg : Msg α) (ctx : Option Nat) (ctxNew : Bool) :
+    Answered (wrouteR c msg ctx ctxNew).1 := by
+  have herase : Answered (eraseResp c msg) :=
+    answered_frame (c' := eraseResp c msg) h (by simp) (by simp; exact strKeepF_refl _) (by simp; exact LogLE.refl _)
+  unfold wrouteR
+  split
+  · exact h
+  · split
+    · exact herase
+    · split
+      · exact herase
+      · exact answered_pendW herase _
+
+theorem answered_wdeliver {c : Conn α} (hw : Inv c) (h : Answered c) (hst : c.cfg.hasStore = true) (hps : PendScope c) (i : Nat) :
+    Answered (wdeliverR c i).1 := by
+  unfold wdeliverR
+  split
+  · exact h
+  · rename_i pw hpw
+    have hnew := hps pw (List.mem_of_getElem? hpw)
+    have hw1 : Inv ({ c with pendW := c.pendW.eraseIdx i } : Conn α) :=
+      inv_pendW hw _ (fun x hx => hw.pend_lt x (mem_eraseIdx hx))
+    split
+    · rename_i s hs
+      rw [hnew]
+      exact answered_writeTo hw1 (answered_pendW h _) _ _ (findStream_some hs).1 hst
+    · refine answered_frame (c := ({ c with pendW := c.pendW.eraseIdx i } : Conn α))
+        (c' := (orphanWrite ({ c with pendW := c.pendW.eraseIdx i } : Conn α) pw).1) (answered_pendW h _) rfl
+        (strKeepF_refl _) ?_
+      simp only [orphanWrite]
+      split
+      · exact logLE_appendLog _ _ _
+      · exact LogLE.refl _
 
 theorem answered_getGo {c : Conn α} (hw : Inv c) (h : Answered c) (sid frm : Nat) (ver : Ver) (budget : Option Nat)
     (items : List (Item α)) : Answered (getGo c sid frm ver budget items) := by
@@ -526,7 +675,7 @@ theorem answered_get {c : Conn α} (hw : Inv c) (h : Answered c) (hdr : Hdr) (ve
         · exact answered_getGo hw h _ _ _ _ _
 
 theorem answered_step {c : Conn α} (hw : Inv c) (h10 : Inv10 c) (h : Answered c) (hst : c.cfg.hasStore = true) (l : Label α)
-    (hsc : InScope c l) : Answered (step c l) := by
+    (hsc : InScope c l) (hps : PendScope c) : Answered (step c l) := by
   unfold step stepR
   cases l with
   | post calls listen ver budget => exact answered_post h10 h _ _ _ _
@@ -538,17 +687,21 @@ theorem answered_step {c : Conn α} (hw : Inv c) (h10 : Inv10 c) (h : Answered c
   | get hdr ver budget => exact answered_get hw h _ _ _
   | sclose req retry => exact answered_sclose hw h _ _
   | «end» => exact answered_frame (c' := { c with isDone := true }) h rfl (strKeepF_refl _) (LogLE.refl _)
+  | evict sid n => exact answered_frame (c' := evict c sid n) h rfl (strKeepF_refl _) (LogLE.refl _)
+  | wroute msg ctx ctxNew => exact answered_wroute h _ _ _
+  | wdeliver i => exact answered_wdeliver hw h hst hps i
 
 theorem answered_run (cfg : Cfg) (hst : cfg.hasStore = true) (ls : List (Label α)) (hsc : InScopeRun (init cfg) ls) :
     Answered (run (init cfg) ls) := by
-  suffices ∀ c : Conn α, Inv c → Inv10 c → Answered c → c.cfg.hasStore = true → InScopeRun c ls → Answered (run c ls) from
-    this _ (inv_init cfg) (inv10_init cfg) (answered_init cfg) hst hsc
+  suffices ∀ c : Conn α, Inv c → Inv10 c → PendRouted c → PendScope c → Answered c → c.cfg.hasStore = true → InScopeRun c ls →
+      Answered (run c ls) from
+    this _ (inv_init cfg) (inv10_init cfg) (pendRouted_init cfg) (pendScope_init cfg) (answered_init cfg) hst hsc
   clear hsc
   induction ls with
-  | nil => intro c _ _ h _ _; exact h
+  | nil => intro c _ _ _ _ h _ _; exact h
   | cons l t ih =>
-    intro c hw h10 h hs hsc
-    exact ih (step c l) (inv_step hw l) (inv10_step hw h10 l) (answered_step hw h10 h hs l hsc.1)
-      (by rw [step_cfg]; exact hs) hsc.2
+    intro c hw h10 hpr hps h hs hsc
+    exact ih (step c l) (inv_step hw l) (inv10_step hw h10 hpr l) (pendRouted_step h10 hpr l) (pendScope_step hps l hsc.1)
+      (answered_step hw h10 h hs l hsc.1 hps) (by rw [step_cfg]; exact hs) hsc.2
 
 end Resume
